@@ -278,7 +278,9 @@ fn do_op(w: &mut World, op: &Value, e: &mut Map<String, Value>) -> Result<(), St
         "hold" => {
             let data = w.pools.get(&op["d"]);
             let o = obj!();
-            let a = o.arena().read_n(data, data.len(), NonZeroUsize::MAX).map_err(|e| format!("{e:?}"))?;
+            // "count" > len(d): the reader delivers d and then reports end of file (short read, partial release)
+            let count = op["count"].as_u64().map(|c| c as usize).unwrap_or(data.len()).max(data.len());
+            let a = o.arena().read_n(data, count, NonZeroUsize::MAX).map_err(|e| format!("{e:?}"))?;
             w.held.insert(geti(op, "h"), a);
         }
         "held_op" => {
